@@ -196,7 +196,7 @@ class Gen:
                     b = num(self.r.choice([0, 1, 2, 3, 5]))
                 return {"t": "cmp", "op": op, "a": self.numexpr(max(d - 1, 0)), "b": b}
             if k < 0.75:
-                return {"t": "cmp", "op": self.r.choice(["=", "!="] if self.f["neq"] else ["="]), "a": self.strexpr(max(d - 1, 0)), "b": strlit(self.r.choice(["ab", "AB", "a", "abz"]))}
+                return {"t": "cmp", "op": self.r.choice(["=", "!="] if self.f["neq"] else ["="]), "a": self.strexpr(max(d - 1, 0)), "b": strlit(self.r.choice(["ab", "AB", "a", "abz"] + (["lag(x)", "x IS NULL", "a CASE b"] if self.in_where else [])))}      # operator / call text inside a literal (WHERE only: a CASE holding parentheses is the recorded family CaseInsideExpressionIsNull)
             if (k < 0.9 or not self.f["likes"]) and (self.in_where or self.f["isnull_sel"]):
                 return {"t": "isnull", "a": col(self.r.choice(["x", "s", "n", "y"])), "neg": self.r.random() < 0.5}
             if self.f["likes"]:
@@ -244,7 +244,7 @@ class Gen:
                 v = r.choice(["25", "5", "0", "2.5", True, False, "abc"])     # a numeric-looking string / boolean where a number is compared
             if v != "__missing__": row[c] = v
         k = r.random()
-        if k < 0.7 or not nulls: row["s"] = r.choice(["ab", "a", "xz", "AB", "", "abz", "b"])
+        if k < 0.7 or not nulls: row["s"] = r.choice(["ab", "a", "xz", "AB", "", "abz", "b", "lag(x)", "x IS NULL"])
         elif k < 0.85: row["s"] = None
         if r.random() < 0.5: row["n"] = None
         k = r.random()
